@@ -1632,6 +1632,18 @@ def part_b_model_list_hist(ctx, lines, recs, configs, only=None):
                         f_ = Model(mdl.train_inputs[0], mdl.train_targets, make_lik(mb, False), mb).double()
                         f_.load_state_dict(mdl.state_dict())
                         fresh.append(f_)
+                    def check_eval(stage):
+                        ml.eval()
+                        pouts = ml(*test)
+                        for i, (o, f_) in enumerate(zip(pouts, fresh)):
+                            f_.eval()
+                            w = f_(test[i])
+                            if not (o.mean.shape == w.mean.shape and close(o.mean, w.mean) and close(o.covariance_matrix, w.covariance_matrix)):
+                                ctx.fail("model_list_hist:posterior", f"IndependentModelList after the history {tag} ({stage}): posterior {i} is "
+                                         f"not the posterior of member {i} rebuilt from its current data and state: {err(o.mean, w.mean)}",
+                                         dict(rp, what="posterior", member=i, stage=stage))
+                    if pre in ("all", "eval"):
+                        check_eval("still in eval mode, no train() in between")
                     li, lt = read_inputs(), read_targets()
                     for name, got, want in (("train_inputs", [t[0] for t in li], [m_.train_inputs[0] for m_ in models]),
                                             ("train_targets", list(lt), [m_.train_targets for m_ in models])):
@@ -1663,15 +1675,7 @@ def part_b_model_list_hist(ctx, lines, recs, configs, only=None):
                             recs.append(("summll", (k, gf[e_].item(), vals, mb, e_, "model_list_hist:sum_mll",
                                                     f"after the history {tag}: SumMarginalLogLikelihood({oname})(model(*model.train_inputs), "
                                                     f"model.train_targets)"), dict(rp, what=oname, tol=1e-9)))
-                    ml.eval()
-                    pouts = ml(*test)
-                    for i, (o, f_) in enumerate(zip(pouts, fresh)):
-                        f_.eval()
-                        w = f_(test[i])
-                        if not (o.mean.shape == w.mean.shape and close(o.mean, w.mean) and close(o.covariance_matrix, w.covariance_matrix)):
-                            ctx.fail("model_list_hist:posterior", f"IndependentModelList after the history {tag}: posterior {i} is not the "
-                                     f"posterior of member {i} rebuilt from its current data and state: {err(o.mean, w.mean)}",
-                                     dict(rp, what="posterior", member=i))
+                    check_eval("after a train() / eval() cycle")
         except Exception as e:
             ctx.fail("model_list_hist:raises", f"IndependentModelList history {tag} raises {type(e).__name__}: {str(e)[:200]} while every "
                      f"member on its own evaluates", rp)
